@@ -66,6 +66,7 @@ impl World {
 		drop(live);
 		{
 			let mut survivor: Option<([u8; 32], u64)> = None;
+			let mut lost_keys: Vec<[u8; 32]> = Vec::new();
 			let mut d = self.nodes[n].disk.lock().unwrap();
 			if from_freeze {
 				if let Some(info) = d.frozen_info.take() {
@@ -95,6 +96,7 @@ impl World {
 			for (_k, cd) in d.chans.iter_mut() {
 				let k = pick.get(i).cloned().unwrap_or(0) as usize;
 				i += 1;
+				let top = cd.candidates.iter().map(|(id, _)| *id).max();
 				if k > 0 && !cd.candidates.is_empty() {
 					let idx = (k - 1).min(cd.candidates.len() - 1);
 					let c = cd.candidates[idx].clone();
@@ -107,6 +109,11 @@ impl World {
 				}
 				cd.candidates.clear();
 				cd.completions.clear();
+				if let Some(top) = top {
+					if cd.durable.as_ref().map_or(true, |(id, _)| *id < top) {
+						lost_keys.push(*_k);
+					}
+				}
 			}
 			// after a restart persistence starts out synchronous again unless configured async
 			let dflt = d.async_default;
@@ -116,6 +123,24 @@ impl World {
 			drop(d);
 			if lost > 0 {
 				self.out.add("fault:inflight_monitor_write_lost", lost);
+			}
+			// monitor writes still `InProgress` died with the process: remember the channels whose
+			// holder commitment this incarnation had nevertheless already handed to the broadcaster
+			for k in lost_keys {
+				let ci = match self.chans.iter().position(|c| c.channel_id.0 == k) {
+					Some(ci) => ci,
+					None => continue,
+				};
+				let funding = self.chans[ci].funding;
+				let seen = self.nodes[n].broadcaster.first_seen.lock().unwrap();
+				let handed = self.oracle.rev.iter().any(|((node, _), a)| {
+					*node == n && a.funding == Some(funding) && a.validated.values().any(|t| seen.contains_key(t))
+				});
+				drop(seen);
+				if handed {
+					self.out.bump("probe:crash_lost_monitor_writes_after_own_commitment_broadcast");
+					self.broadcast_on_lost_state.insert((n, ci));
+				}
 			}
 			if survived_inflight > 0 {
 				self.out.add("fault:inflight_monitor_write_survived", survived_inflight);
